@@ -64,14 +64,17 @@ PROPS = {
     },
     "C04": {
         "level": "proof",
-        "verus": [("daterange", None), ("balance", None), ("bookkeep", ["process_posting", "add_transaction"]),
+        "verus": [("daterange", None), ("register", None), ("balance", None), ("bookkeep", ["process_posting", "add_transaction"]),
                   ("amounts", ["AddAssign<Amount> for Amount", "Amount::remove_zero_entries", "Amount::set_partial", "AddAssign<PostingAmount> for Amount", "AddAssign<SingleAmount> for Amount", "TryFrom<&Amount> for PostingAmount"])],
         "family": ("c04", {"quick": [], "thorough": []}),
         "explanation": "Verus proves (a) DateRange::contains is exactly start <= d < end with open ends as infinity, adjacent windows partition their union and empty windows contain nothing, "
                        "is_bypass/require_recompute choose the stored balance only for an unbounded window without per-posting conversion; (b) every update of the running Balance adds the posting to that "
-                       "account only and never stores a zero-valued commodity.  The re-fold in Ledger::balance and the register's running total are iterator-adapter code and are NOT decided.",
-        "units_doc": ["core/src/report/query.rs: DateRange::{contains,is_bypass}, BalanceQuery::require_recompute", "core/src/report/balance.rs: Balance::{add_amount, add_posting_amount}"],
-        "assumptions": ["assumed L0 model of chrono::NaiveDate: a totally ordered day number (vx/prelude/chrono.rs)", L0_DECIMAL, L0_HANDLES, L0_STD, L1_AMOUNT],
+                       "account only and never stores a zero-valued commodity; (c) the register's account filter (AccountFilter::is_match; the selection predicate of AccountFilter::new, sliced) lists a posting "
+                       "exactly when no account was asked for or its account's name EQUALS the argument, and Ledger::postings applies it to the posting's own account (textual anchor).  The re-fold in Ledger::balance "
+                       "and the register's running total are iterator-adapter code and are NOT decided by proof; they are exercised by the c04 family (five ledgers incl. back-dated entries, a declared precision, "
+                       "assignments, and account names that are prefixes of one another x 100 [start, end) windows against the sum of the listed postings; Ledger::postings per account against the whole-history report).",
+        "units_doc": ["core/src/report/query.rs: DateRange::{contains,is_bypass}, BalanceQuery::require_recompute, AccountFilter::is_match, AccountFilter::new (selection predicate, slice)", "core/src/report/balance.rs: Balance::{add_amount, add_posting_amount}"],
+        "assumptions": ["assumed L0 model of chrono::NaiveDate: a totally ordered day number (vx/prelude/chrono.rs)", "assumed: Account::as_str is the account's interned name; HashSet::contains (vstd); `.filter(p).collect()` keeps exactly the elements satisfying p (std)", L0_DECIMAL, L0_HANDLES, L0_STD, L1_AMOUNT],
         "not_decided": ["Ledger::balance re-fold (flat_map/filter_map closures), Balance::round, RegisterCmd running total"],
     },
     "C05": {
@@ -137,7 +140,7 @@ PROPS = {
         "assumptions": [L0_HANDLES, "assumed (R24): HashMap::iter().collect() / into_iter().collect() list every entry exactly once in an unspecified order; slice::sort_unstable_by_key returns a permutation sorted by the key",
                         "assumed: Ord for str / derive(Ord) for RewriteField are antisymmetric on the keys, i.e. two distinct interned handles of one context never carry the same name",
                         "the loops that print the listing in index order (write! plumbing) are not under contract"],
-        "bounded": ["c13 family: 9 ledgers x (balance, balance -X up-to-date / historical, register, eval, error text), 4 camt053 rule shapes + 1 CSV rule, 24 runs each in one process"],
+        "bounded": ["c13 family: 16 ledgers (incl. multi-commodity expressions that cancel, in amount / assertion / assignment / cost / lot position) x (balance, balance -X up-to-date / historical, register, eval, error text), 4 camt053 rule shapes + 1 CSV rule, 24 runs each in one process"],
         "not_decided": ["that BinaryHeap pops equal-distance entries in an order fixed by the push sequence (std)", "ReportContext::all_accounts (sorted, not under contract)", "process-level inputs: environment, clock, locale"],
     },
     "C14": {
@@ -196,42 +199,56 @@ PROPS = {
     },
     "C09": {
         "level": "other",
-        "verus": [("prices", None), ("bookkeep", ["PriceRepositoryBuilder::insert_price", "callsite:insert_impl division"]), ("determinism", ["callsite:compute_price_table.neighbor_order"])],
+        "verus": [("prices", None), ("convert", ["PriceRepository::convert_single", "PriceRepository::new"]), ("bookkeep", ["PriceRepositoryBuilder::insert_price", "callsite:insert_impl division"]), ("determinism", ["callsite:compute_price_table.neighbor_order"])],
         "kani": {"quick": [], "thorough": []},
         "family": ("c09", {"quick": [], "thorough": ["thorough"]}),
         "technique": "contract-based deductive verification of the fragments of price selection that a contract can reach (Verus on functions and call-site slices extracted from /repo); the chain search itself "
                      "(label-correcting search over BinaryHeap + nested HashMap) is decided only by a bounded brute-force twin sweep through the real Ledger::eval",
-        "explanation": "PARTIAL / BOUNDED.  Verus proves: insert_price records every price in both directions with reciprocal rates (same date, same source) and ignores an event with a zero amount; the predicate that "
-                       "compute_price_table hands to partition_point is exactly `price date <= date`, and the price taken is the last of that usable prefix, i.e. the most recent usable one (the vector is date-sorted); "
-                       "no usable price = no edge; Distance::extend counts a ledger-derived step as a ledger step and a price-DB step not, counts every step, and keeps the stalest step's age; the comparison order "
-                       "of the three criteria (derive(Ord): field order) is pinned by a textual anchor; convert_single's identity test is `value.commodity == commodity_with`; neighbours are visited in a "
-                       "hash-seed-independent order (C13).  NOT decided by proof: that the search returns the minimum over all chains, source precedence inside insert_impl (nested entry API), load_price_db.  Those are "
-                       "exercised, bounded: every subset of <= 4 (thorough: 5) of 9 price facts over 4 commodities (ledger costs, an implied exchange, price-DB lines, a future price) x 6 dates x all 16 ordered pairs "
-                       "against a brute-force reading of the statement over all simple chains; chains that tie on all three criteria with different rates are skipped as undecided by the statement.",
-        "units_doc": ["core/src/report/price_db.rs: PriceRepositoryBuilder::insert_price, Distance::extend, compute_price_table (call-site slices: usable-price predicate, latest usable price, neighbour order), convert_single (identity test, slice)"],
-        "assumptions": [L0_DECIMAL, L0_HANDLES, "assumed L0 model of chrono::NaiveDate (day number) and TimeDelta (seconds), std::cmp::max on TimeDelta",
-                        "assumed (L1): insert_impl appends rate = price_with / price_of to records[price_with.commodity][price_of.commodity] (nested entry API); its source-precedence rule (a higher source clears lower-source entries) is not under contract",
+        "explanation": "PARTIAL / BOUNDED.  Verus proves: insert_price records every price in both directions with reciprocal rates (same date, same source) and ignores an event with a zero amount; "
+                       "insert_impl (its real body, nested entry API rewritten by rule R28) stores rate = price_with / price_of under the pair, ADDS a price of the same source to what is recorded, lets a price of a "
+                       "higher-ranking source (price database over ledger; derive(Ord) variant order pinned by an anchor) REPLACE everything recorded for the pair, and touches no other pair - under the call-order "
+                       "precondition that no lower-ranking price arrives after a higher-ranking one (not proved at the call sites; `process` reading the price database after the whole ledger is pinned by an anchor); "
+                       "the predicate that compute_price_table hands to partition_point is exactly `price date <= date`, and the price taken is the last of that usable prefix, i.e. the most recent usable one (the vector "
+                       "is date-sorted); no usable price = no edge; the age of a step is query date - price date; Distance::extend counts a ledger-derived step as a ledger step and a price-DB step not, counts every "
+                       "step, and keeps the stalest step's age; chains are compared by (ledger steps, steps, staleness) in that order (derive(Ord): field order pinned by an anchor; WithDistance's hand-written "
+                       "comparisons with a Distance are proved to compare the distance); the relaxation step (entry API rewritten by rule R27) records a strictly better chain, keeps the recorded one against a strictly "
+                       "worse one (ties: either, the statement does not decide them), reports truthfully whether it recorded, and touches no other commodity; a queued chain is skipped only when a strictly better one is "
+                       "recorded; the rate of a chain is the product of its steps' rates; the search starts at distance zero; convert_single (real body, rule R29) returns an amount already in the target commodity as it is, otherwise value x the entry of the table computed for exactly this "
+                       "(target, date) - memoised per (target, date), the memo proved consistent - and fails when the table has no entry (no chain); neighbours are "
+                       "visited in a hash-seed-independent order (C13).  NOT decided by proof: that the label-correcting loop as a whole reaches the minimum over all chains (queue discipline and termination: a "
+                       "whole-loop invariant over BinaryHeap + HashMap was not attempted), build_naive's sort, load_price_db.  Those are exercised, bounded: every subset of <= 4 (thorough: 5) of 9 price facts over 4 "
+                       "commodities (ledger costs, an implied exchange, price-DB lines, a future price) x 6 dates x all 16 ordered pairs against a brute-force reading of the statement over all simple chains; chains that "
+                       "tie on all three criteria with different rates are skipped as undecided by the statement.",
+        "units_doc": ["core/src/report/price_db.rs: PriceRepositoryBuilder::{insert_price, insert_impl}, Distance::extend, WithDistance::{eq, partial_cmp} against Distance, compute_price_table (call-site slices: usable-price "
+                      "predicate, latest usable price, step age, chain rate, relaxation step, stale-queue-entry test, start distance, neighbour order), PriceRepository::{new, convert_single}"],
+        "assumptions": [L0_DECIMAL, L0_HANDLES, "assumed L0 model of chrono::NaiveDate (day number; date - date = that many days) and TimeDelta (seconds, ordered by length), std::cmp::max on TimeDelta",
+                        "assumed (std entry API, rules R27/R28): entry(k) is Occupied iff k is present, OccupiedEntry::get is the stored value, both inserts store under k; entry(k).or_default()/.or_insert(v) is a "
+                        "mutable reference to the slot under k, created first when absent",
+                        "assumed (R13): derive(PartialOrd, Ord) compares fields / variants in declaration order (the declaration orders are pinned by textual anchors)",
+                        "NOT proved at call sites: insert_impl's call-order precondition (no lower-ranking source after a higher-ranking one for a pair); holds because process() loads the price database after the ledger (anchor)",
                         "assumed: slice::partition_point returns the length of the prefix satisfying the predicate (std, for a partitioned slice); build_naive sorts every rate vector by date (iterator chain, not under contract)"],
         "bounded": ["c09 family: 255 (thorough: 381) price-fact subsets x 6 dates x 16 ordered commodity pairs = 24,480 (36,576) conversions; rates chosen so that reciprocals and products are exact decimals"],
         "not_decided": ["optimality of the label-correcting search (bounded family only)", "PriceDB-over-ledger precedence in insert_impl (bounded family only)", "load_price_db / parse::price (bounded family only)", "ties among equally good chains (left open by the statement)"],
     },
     "C10": {
         "level": "other",
-        "verus": [("convert", ["convert_amount"]), ("determinism", ["callsite:Ledger::balance.conversion_order", "Amount::sorted_values"])],
+        "verus": [("convert", ["convert_amount", "PriceRepository::convert_single", "PriceRepository::new"]), ("determinism", ["callsite:Ledger::balance.conversion_order", "Amount::sorted_values"])],
         "kani": {"quick": [], "thorough": []},
         "family": ("c10", {"quick": [], "thorough": []}),
-        "technique": "contract-based deductive verification: Verus on price_db::convert_amount extracted from /repo (loop invariant: running sum of the holdings converted so far) over an assumed contract of "
-                     "PriceRepository::convert_single; bounded stand-in for Ledger::balance's conversion branches: twin sweep through the real Ledger::balance",
+        "technique": "contract-based deductive verification: Verus on price_db::convert_amount extracted from /repo (loop invariant: running sum of the holdings converted so far) over the contract of "
+                     "PriceRepository::convert_single, itself extracted and proved in the same file over an uninterpreted rate table (the result of compute_price_table); bounded stand-in for Ledger::balance's conversion branches: twin sweep through the real Ledger::balance",
         "explanation": "PARTIAL.  Verus proves convert_amount, the function both conversion branches of Ledger::balance and `eval -X` go through: if every holding of the amount has a rate, the result holds exactly the "
                        "target commodity with the sum, over Amount::iter's listing (every commodity exactly once: C13), of value x rate, a holding already in the target commodity counted as it is (so the result "
                        "is linear in the amounts); if some holding has no rate the call fails - nothing is dropped, double-counted or left unconverted; the rates are a function of the records and are not changed by "
-                       "converting.  NOT decided by proof: the two branches of Ledger::balance themselves (iterator chains: per posting at the transaction date / per account at `now`, rounding once at the end), "
+                       "converting.  convert_single itself (real body, `entry().or_insert_with(..)` rewritten by rule R29) is proved against the table compute_price_table gives for (target, date): identity for the target "
+                       "commodity, value x that table's rate in the target commodity otherwise, failure when the table has no entry, and the memo stays consistent with the records whatever was asked before (a cache keyed "
+                       "by less than (target, date) fails this).  NOT decided by proof: the two branches of Ledger::balance themselves (iterator chains: per posting at the transaction date / per account at `now`, rounding once at the end), "
                        "EvalOptions::to_conversion; they are exercised, bounded, by the c10 family: 4 ledgers x 3 scalings x declared/undeclared precision x 7 report dates (historical, before / between / on / after the "
                        "price dates) against a twin written from the statement (direct ledger prices only, so that rate choice - C09 - plays no part).",
-        "units_doc": ["core/src/report/price_db.rs: convert_amount", "core/src/report/query.rs: Ledger::balance (account order before conversion, sliced; C13)", "core/src/report/eval/amount.rs: Amount::sorted_values (listing behind Amount::iter)"],
+        "units_doc": ["core/src/report/price_db.rs: convert_amount, PriceRepository::{new, convert_single}", "core/src/report/query.rs: Ledger::balance (account order before conversion, sliced; C13)", "core/src/report/eval/amount.rs: Amount::sorted_values (listing behind Amount::iter)"],
         "assumptions": [L0_DECIMAL, L0_HANDLES, L0_STD, L1_AMOUNT,
-                        "assumed (L1): PriceRepository::convert_single returns its argument when it already is in the target commodity, value x rate(records, from, to, date) otherwise, RateNotFound when the table has no rate; "
-                        "the cache never changes an answer (entry().or_insert_with(closure) over compute_price_table is outside both verifiers)",
+                        "requires: convert_amount and convert_single assume the memo is consistent with the records on entry (established by PriceRepository::new, preserved by both: proved); the callers in query.rs are not under contract",
+                        "assumed: compute_price_table is a function of (records, target, date) (no hidden state; hash-order independence is C13's neighbour-order obligation); std entry API (R29)",
                         "assumed (R25d): Amount::iter yields every commodity of the amount exactly once (tied to the proved Amount::sorted_values by a textual anchor)"],
         "bounded": ["c10 family: 4 scenarios x scale {1, 2, -3} x T precision {none, 2} x report date {historical, 6 dates} x date range {none; for scale 1 also four [start, end) windows} = 392 queries"],
         "not_decided": ["Ledger::balance conversion branches (bounded family only)", "which rate is the right one (C09)", "cli EvalOptions::to_conversion / to_date_range"],
